@@ -497,8 +497,8 @@ func diagnose(must []string, may map[string]bool, got []string, lsBased bool) []
 		fs = append(fs, finding{cause, fmt.Sprintf("path %q returned as %q", m, as)})
 		explained[as] = true
 	}
-	sort.Strings(missing)
-	for _, m := range missing {
+	// explain reports which mangling of the true path m is among the returned strings
+	explain := func(m string) bool {
 		q := gitQuote(m)
 		switch {
 		case q != m && extra[q]:
@@ -515,7 +515,25 @@ func diagnose(must []string, may map[string]bool, got []string, lsBased bool) []
 		case strings.TrimRight(m, " ") != m && extra[strings.TrimRight(m, " ")]:
 			add("trimmed-blank", m, strings.TrimRight(m, " "))
 		default:
+			return false
+		}
+		return true
+	}
+	sort.Strings(missing)
+	for _, m := range missing {
+		if !explain(m) {
 			fs = append(fs, finding{"missing-path", fmt.Sprintf("path %q not returned (got %q)", m, got)})
+		}
+	}
+	// strings that stand for a tolerated (not required) path, e.g. a merge
+	// commit's path that differs from one parent only
+	isMust := map[string]bool{}
+	for _, m := range must {
+		isMust[m] = true
+	}
+	for _, m := range keysOf(may) {
+		if !gotSet[m] && !isMust[m] {
+			explain(m)
 		}
 	}
 	for _, s := range keysOf(extra) {
@@ -535,7 +553,7 @@ type runner struct {
 	// shared object-only repository for reader cases
 	shared   *gitback.Repo
 	sharedGT gt
-	verbose bool
+	verbose  bool
 }
 
 func (x *runner) report(c Case, fn string, fs []finding) {
@@ -1203,10 +1221,48 @@ func TestC10(t *testing.T) {
 	col.Sample(rcs[7])
 	col.Sample(ecs[3])
 
-	// e2e first (heavier, spread evenly), then readers
+	// Interleave: after each end-to-end case of this shard, a proportional share
+	// of its reader cases, so that a run cut short by the time cap has still
+	// exercised both halves.
+	mineE, mineR := []Case{}, []Case{}
 	for k, c := range ecs {
-		if !evid.Mine(k) {
-			continue
+		if evid.Mine(k) {
+			mineE = append(mineE, c)
+		}
+	}
+	for k, c := range rcs {
+		if evid.Mine(k + 5) {
+			mineR = append(mineR, c)
+		}
+	}
+	x.shared = gitback.New(t, true)
+	x.sharedGT = newGT(x.shared)
+	defer os.RemoveAll(x.shared.Dir)
+	share := 1
+	if len(mineE) > 0 {
+		share = (len(mineR) + len(mineE) - 1) / len(mineE)
+	}
+	ri := 0
+	readers := func(n int) bool {
+		for ; n > 0 && ri < len(mineR); n-- {
+			if col.Expired() {
+				return false
+			}
+			c := mineR[ri]
+			ri++
+			t0 := time.Now()
+			x.readerCase(c)
+			col.Add("ms_reader_total", time.Since(t0).Milliseconds())
+			col.Inc("reader_cases_done")
+			if ri%29 == 1 {
+				col.Sample(c)
+			}
+		}
+		return true
+	}
+	for _, c := range mineE {
+		if !readers(share) {
+			return
 		}
 		if col.Expired() {
 			return
@@ -1216,22 +1272,5 @@ func TestC10(t *testing.T) {
 		col.Add("ms_e2e_total", time.Since(t0).Milliseconds())
 		col.Inc("e2e_cases_done")
 	}
-	x.shared = gitback.New(t, true)
-	x.sharedGT = newGT(x.shared)
-	defer os.RemoveAll(x.shared.Dir)
-	for k, c := range rcs {
-		if !evid.Mine(k + 5) {
-			continue
-		}
-		if col.Expired() {
-			return
-		}
-		t0 := time.Now()
-		x.readerCase(c)
-		col.Add("ms_reader_total", time.Since(t0).Milliseconds())
-		col.Inc("reader_cases_done")
-		if k%97 == 0 {
-			col.Sample(c)
-		}
-	}
+	readers(len(mineR))
 }
